@@ -8,6 +8,7 @@ UTF-8 bytes (`-` = empty). Offsets are byte offsets into the request's text.
                     left-factored grammar of /repo 33df1c7 = the old one: partial_or_group_factored_eq)
   pbase <hex>     → the same for `base_type`
   pfio <hex>      → the same for `function_input_type` / `function_output_type`
+  pinline <hex>   → the same for `inline_type_expression` (a type in pattern position)
   palias <hex>    → alias-only <alias> | alias-then-err <alias> <offset> | alias-then-more <alias> <offset>
                     | not-alias <offset> <code> | fuel-out                        (`programVerdict`)
   fmt-type <ty>   → s:<hex>    `render_type`
@@ -171,6 +172,8 @@ def typeStep (req : List Sx) : Option String :=
     some (match hexToStr h with | some i => renderRes i (parseBaseTypeF i) | none => "bad-request")
   | [.atom "pfio", .atom h] =>
     some (match hexToStr h with | some i => renderRes i (parseFunctionIoTypeF i) | none => "bad-request")
+  | [.atom "pinline", .atom h] =>
+    some (match hexToStr h with | some i => renderRes i (parseInlineTypeF i) | none => "bad-request")
   | [.atom "palias", .atom h] =>
     some (match hexToStr h with | some i => renderVerdict i (programVerdict i) | none => "bad-request")
   | [.atom "fmt-type", t] =>
